@@ -1,4 +1,4 @@
-(* C12 property theorems (statements only; proofs are in Proofs.v).
+(* C12 property theorems (statements only; proofs are in Proofs.v) — REPAIRED code (F02a, F02b, F02c fixed).
    Model: C12/Model.v — the list of expected-response futures of Network, the callers of
    wait_for_*_message / execute, the completion loop of on_message_received.
    All theorems quantify over every event list [es] (every interleaving of registrations, messages,
@@ -8,10 +8,10 @@ From SlskGen Require RetryGen.
 From Slsk Require Import C12.Model C12.Proofs.
 Open Scope nat_scope.
 
-(* --- at most one completion, only by a matching message ------------------------------------ *)
+(* --- exactly once, only by a matching message ---------------------------------------------------- *)
 (* Whatever happens later ([es']), a waiter keeps its matcher, a done future never changes again,
-   an outcome delivered to the caller never changes again, a removed entry never comes back. *)
-Theorem C12_exact_once_partial : forall es es' i e, nth_error (run es) i = Some e ->
+   an outcome delivered to the caller never changes again, a removed entry never comes back; ... *)
+Theorem C12_exact_once : forall es es' i e, nth_error (run es) i = Some e ->
   exists e', nth_error (run (es ++ es')) i = Some e' /\
     e_m e' = e_m e /\ e_kind e' = e_kind e /\
     (e_fut e <> FPending -> e_fut e' = e_fut e) /\
@@ -20,79 +20,48 @@ Theorem C12_exact_once_partial : forall es es' i e, nth_error (run es) i = Some 
     (e_task e = TFin -> e_task e' = TFin).
 Proof. exact exact_once_partial. Qed.
 
-(* A result is a message that was delivered while the waiter was pending and listed, and that
-   [matches] (the implementation's matcher) accepts. *)
-Theorem C12_result_only_matching : forall es i e g, nth_error (run es) i = Some e -> e_fut e = FResult g ->
-  exists es1 es2 e1, es = es1 ++ Message g :: es2 /\ nth_error (run es1) i = Some e1 /\
-     e_fut e1 = FPending /\ e_in e1 = true /\ matches (e_m e1) g = true /\ e_m e1 = e_m e.
-Proof. exact result_provenance. Qed.
-
-(* What the property asks in addition — no completion is ever ATTEMPTED on a done waiter — is false:
-   two matching messages in one loop iteration (finding F02a). *)
-Theorem C12_exact_once_refuted : exists es g i e g', nth_error (run es) i = Some e /\ e_fut e = FResult g' /\
-  e_in e = true /\ matches (e_m e) g = true /\ snd (step (run es) (Message g)) = true.
-Proof. exact exact_once_refuted. Qed.
-
-(* --- every pending request the message answers is completed ------------------------------- *)
-(* ... when the completion loop does not raise; and nothing else is touched. *)
-Theorem C12_all_pending_matching_completed_partial : forall es g i e, nth_error (run es) i = Some e ->
-  e_in e = true -> e_fut e = FPending -> matches (e_m e) g = true ->
-  snd (step (run es) (Message g)) = false ->
-  exists e', nth_error (run (es ++ [Message g])) i = Some e' /\ e_fut e' = FResult g.
-Proof. exact all_completed_partial. Qed.
-
-Theorem C12_message_touches_only_matching : forall es g i e e', nth_error (run es) i = Some e ->
+(* ... a message only touches pending, listed waiters it matches (no completion is attempted on a done waiter),
+   and the completion loop never raises. *)
+Theorem C12_message_touches_only_pending_matching : forall es g i e e', nth_error (run es) i = Some e ->
   nth_error (run (es ++ [Message g])) i = Some e' ->
   e' = e \/ (e_in e = true /\ e_fut e = FPending /\ matches (e_m e) g = true /\ e' = set_fut e (FResult g)).
 Proof. exact message_only_matching. Qed.
 
-(* The loop raises exactly when a done waiter that is still listed matches the message ... *)
-Theorem C12_raise_iff_done_listed_match : forall st g, snd (step st (Message g)) = true ->
-  exists i e, nth_error st i = Some e /\ e_in e = true /\ matches (e_m e) g = true /\ is_pending (e_fut e) = false.
-Proof. intros st g. exact (deliver_raise g st). Qed.
+Theorem C12_completion_loop_never_raises : forall st ev, snd (step st ev) = false.
+Proof. exact never_raises. Qed.
 
-(* ... and then pending waiters behind it are skipped (finding F02a): the unconditional statement is false. *)
-Theorem C12_all_pending_matching_completed_refuted : exists es g i e e', nth_error (run es) i = Some e /\
-  e_in e = true /\ e_fut e = FPending /\ matches (e_m e) g = true /\
-  nth_error (run (es ++ [Message g])) i = Some e' /\ e_fut e' = FPending.
-Proof. exact all_completed_refuted. Qed.
+(* A result is a message that was delivered while the waiter was pending and listed, and that matches. *)
+Theorem C12_result_only_matching : forall es i e g, nth_error (run es) i = Some e -> e_fut e = FResult g ->
+  exists es1 es2 e1, es = es1 ++ Message g :: es2 /\ nth_error (run es1) i = Some e1 /\
+     e_fut e1 = FPending /\ e_in e1 = true /\ matches_spec (e_m e1) g = true /\ e_m e1 = e_m e.
+Proof.
+  intros es i e g H F. destruct (result_provenance es i e g H F) as (a & b & e1 & A & B & C & D & E & G).
+  exists a, b, e1. rewrite <- matches_is_spec. auto 10.
+Qed.
 
-(* --- first match ---------------------------------------------------------------------------- *)
-(* The completing message is the first matching one after registration, EXCEPT for earlier matching
-   messages whose delivery raised. *)
-Theorem C12_first_match_partial : forall es i e g, nth_error (run es) i = Some e -> e_fut e = FResult g ->
+(* --- every pending request the message answers is completed ------------------------------------- *)
+Theorem C12_all_pending_matching_completed : forall es g i e, nth_error (run es) i = Some e ->
+  e_in e = true -> e_fut e = FPending -> matches_spec (e_m e) g = true ->
+  exists e', nth_error (run (es ++ [Message g])) i = Some e' /\ e_fut e' = FResult g.
+Proof. intros es g i e H I P M. rewrite <- matches_is_spec in M. eapply all_completed; eauto. Qed.
+
+(* --- first match ------------------------------------------------------------------------------------ *)
+(* The completing message is the first one after the registration that matches the waiter. *)
+Theorem C12_first_match : forall es i e g, nth_error (run es) i = Some e -> e_fut e = FResult g ->
   exists es1 es2 e1, es = es1 ++ Message g :: es2 /\ nth_error (run es1) i = Some e1 /\
     e_fut e1 = FPending /\ e_in e1 = true /\ matches (e_m e1) g = true /\
-    (forall a g' b e0, es1 = a ++ Message g' :: b -> nth_error (run a) i = Some e0 -> matches (e_m e0) g' = true ->
-       snd (step (run a) (Message g')) = true).
-Proof. exact first_match_partial. Qed.
+    (forall a g' b e0, es1 = a ++ Message g' :: b -> nth_error (run a) i = Some e0 -> matches (e_m e0) g' = false).
+Proof. exact first_match. Qed.
 
-Theorem C12_first_match_refuted : exists es i e g es1 g' es2 e1, nth_error (run es) i = Some e /\ e_fut e = FResult g /\
-  es = es1 ++ Message g' :: es2 /\ In (Message g) es2 /\ g' <> g /\
-  nth_error (run es1) i = Some e1 /\ e_fut e1 = FPending /\ e_in e1 = true /\ matches (e_m e1) g' = true.
-Proof. exact first_match_refuted. Qed.
-
-(* --- a timeout is a timeout ----------------------------------------------------------------- *)
-(* Once the timeout of a suspended caller fires and nobody else cancels that caller, the caller of
-   execute() gets TimeoutError; the caller of wait_for_server/peer_message ALWAYS gets
-   InvalidStateError (set_exception on the future the timeout has just cancelled): finding F02b. *)
-Theorem C12_timeout_is_timeout_partial : forall es i e es', nth_error (run es) i = Some e ->
-  e_kind e = KExec -> e_task e = TWait -> e_tmo e = false -> e_ext e = false -> ~ In (Cancel i) es' ->
+(* --- a timeout is a timeout ------------------------------------------------------------------------- *)
+(* Once the timeout of a suspended caller (execute or wait_for_*_message) fires and nobody else cancels that
+   caller, the caller gets TimeoutError. *)
+Theorem C12_timeout_is_timeout : forall es i e es', nth_error (run es) i = Some e ->
+  e_task e = TWait -> e_tmo e = false -> e_ext e = false -> ~ In (Cancel i) es' ->
   exists e', nth_error (run (es ++ Timeout i :: es' ++ [RunCallbacks])) i = Some e' /\ e_out e' = Some OTimeout.
-Proof. intros es i e es' H K. intros. destruct (timeout_outcome es i e es') as (e' & A & B); auto. rewrite K in B. eauto. Qed.
+Proof. intros es i e es' H. intros. destruct (timeout_outcome es i e es') as (e' & A & B); eauto. Qed.
 
-Theorem C12_wait_timeout_always_invalid_state : forall es i e es', nth_error (run es) i = Some e ->
-  e_kind e = KWait -> e_task e = TWait -> e_tmo e = false -> e_ext e = false -> ~ In (Cancel i) es' ->
-  exists e', nth_error (run (es ++ Timeout i :: es' ++ [RunCallbacks])) i = Some e' /\ e_out e' = Some OInvalidState.
-Proof. intros es i e es' H K. intros. destruct (timeout_outcome es i e es') as (e' & A & B); auto. rewrite K in B. eauto. Qed.
-
-Theorem C12_timeout_is_timeout_refuted : exists es i e, nth_error (run es) i = Some e /\ e_kind e = KWait /\
-  e_tmo e = true /\ e_ext e = false /\ e_out e = Some OInvalidState.
-Proof. exact timeout_refuted. Qed.
-
-(* --- no residue ------------------------------------------------------------------------------ *)
-(* In every reachable state a done future that is still listed has its removal scheduled, and an
-   unlisted future is done ... *)
+(* --- no residue --------------------------------------------------------------------------------------- *)
 Theorem C12_listed_done_is_scheduled : forall es i e, nth_error (run es) i = Some e ->
   e_cbs e = (e_in e && negb (is_pending (e_fut e))) /\ (e_in e = false -> e_fut e <> FPending).
 Proof.
@@ -102,47 +71,30 @@ Proof.
   - intros I P. rewrite I, P in *. discriminate.
 Qed.
 
-(* ... so once the callbacks have run only pending waiters are listed, and no message raises. *)
 Theorem C12_no_residue : forall es, clean (run (es ++ [RunCallbacks])) = true.
 Proof. exact no_residue. Qed.
-
-Theorem C12_no_residue_no_raise : forall es g, snd (step (run (es ++ [RunCallbacks])) (Message g)) = false.
-Proof. exact no_residue_no_raise. Qed.
-
-Theorem C12_clean_no_raise : forall st g, clean st = true -> snd (step st (Message g)) = false.
-Proof. intros st g. exact (clean_no_raise g st). Qed.
 
 (* RunCallbacks is the DoneCb of every entry in list order (the correspondence observes DoneCb). *)
 Theorem C12_runcallbacks_as_donecbs : forall st,
   fst (step st RunCallbacks) = run_from st (map DoneCb (seq 0 (length st))).
 Proof. exact runcallbacks_as_donecbs. Qed.
 
-(* --- the matcher ------------------------------------------------------------------------------ *)
-(* ExpectedResponse.matches tests every expected field when no callable is followed by another field;
-   otherwise it stops at the first callable (finding F02c). *)
-Theorem C12_matches_spec_partial : forall m g, callable_last (m_fields m) = true -> matches m g = matches_spec m g.
-Proof. exact matches_spec_partial. Qed.
-
-Theorem C12_matches_complete : forall m g, matches_spec m g = true -> matches m g = true.
-Proof. exact matches_spec_implies_matches. Qed.
-
-Theorem C12_matches_spec_refuted : exists m g, matches m g = true /\ matches_spec m g = false.
-Proof. exact matches_spec_refuted. Qed.
+(* --- the matcher ------------------------------------------------------------------------------------- *)
+(* ExpectedResponse.matches = expected type, expected server/peer, EVERY expected field value *)
+Theorem C12_matches_spec : forall m g, matches m g = matches_spec m g.
+Proof. exact matches_is_spec. Qed.
 
 (* --- documented default (docstring of SoulSeekClient.execute: "default: 10"); regenerated by tr_retry ----- *)
 Theorem C12_default_command_timeout_documented : SlskGen.RetryGen.DEFAULT_COMMAND_TIMEOUT = 10%Z.
 Proof. reflexivity. Qed.
 
-(* --- non-vacuity -------------------------------------------------------------------------------- *)
+(* --- non-vacuity ---------------------------------------------------------------------------------------- *)
 Example C12_nonvacuous :
-  (* a waiter that is pending, listed and matched; the loop does not raise; it gets the result *)
   (let es := [Register KExec m0; SendOk 0; Register KWait m0] in
-   exists e, nth_error (run es) 0 = Some e /\ e_in e = true /\ e_fut e = FPending /\ matches (e_m e) (g0 7) = true /\
-     snd (step (run es) (Message (g0 7))) = false /\ e_kind e = KExec /\ e_task e = TWait /\ e_tmo e = false /\ e_ext e = false) /\
-  (* execute: timeout while pending gives OTimeout *)
-  (exists e, nth_error (run [Register KExec m0; SendOk 0; Timeout 0; Message (g0 1); RunCallbacks]) 0 = Some e /\ e_out e = Some OTimeout) /\
-  (* a completed waiter *)
-  (exists e, nth_error (run [Register KWait m0; Message (g0 3); RunCallbacks]) 0 = Some e /\ e_fut e = FResult (g0 3) /\
+   exists e, nth_error (run es) 0 = Some e /\ e_in e = true /\ e_fut e = FPending /\ matches_spec (e_m e) (g0 7) = true /\
+     e_kind e = KExec /\ e_task e = TWait /\ e_tmo e = false /\ e_ext e = false) /\
+  (exists e, nth_error (run [Register KWait m0; Timeout 0; Message (g0 1); RunCallbacks]) 0 = Some e /\ e_out e = Some OTimeout) /\
+  (exists e, nth_error (run [Register KWait m0; Message (g0 3); Message (g0 4); RunCallbacks]) 0 = Some e /\ e_fut e = FResult (g0 3) /\
      e_out e = Some (OResult (g0 3)) /\ e_in e = false) /\
-  callable_last (m_fields m1) = true /\ matches_spec m1 (g0 0) = true /\ clean (run [Register KRaw m0]) = true.
+  matches wit_matcher wit_msg = false /\ matches_spec m1 (g0 0) = true /\ clean (run [Register KRaw m0]) = true.
 Proof. repeat split; try (eexists; repeat split); reflexivity. Qed.
